@@ -68,6 +68,7 @@ FLAG_DEFAULTS = {
     "repl": 1,
     "min_deadline": 0,
     "max_deadline": MAXSIZE,
+    "loop_timeout": MAXSIZE,
     "seed": 0,
 }
 
@@ -88,7 +89,7 @@ def flag_argv(fl: dict) -> list[str]:
         f"--max_deadline={f['max_deadline']}",
         f"--random_seed={f['seed']}",
         # everything else the two loaders read, pinned to main.py's defaults
-        "--loop_timeout=%d" % MAXSIZE,
+        f"--loop_timeout={f['loop_timeout']}",
         "--log_level=debug",
         "--nouse_branch_predicated_deadlines",
         "--noresolve_conditionals_at_submission",
